@@ -664,6 +664,26 @@ func runPVPath(c *core.Ctx) {
 	}
 	pc := &pathCheck{c: c, r: r, fieldOK: map[string]int{}, fieldWhy: map[string]string{}}
 	count := map[string]int{}
+	// the repository methods the shared collector (the function that deletes blobs) works through: a digest used there
+	// without validation does not only escape the directory — the digest library panics on a malformed one, and the
+	// panic ends the store-wide pass at that repository, in every pass
+	collectorMethods := map[string]bool{}
+	for _, f := range sharedStoreFuncs(c) {
+		sweeps := false
+		an.Calls(f, func(call ssa.CallInstruction) {
+			if cc := call.Common(); cc.IsInvoke() && cc.Method.Name() == "blobDelete" && an.NamedOf(cc.Value.Type()) == r.IRepo {
+				sweeps = true
+			}
+		})
+		if !sweeps {
+			continue
+		}
+		an.Calls(f, func(call ssa.CallInstruction) {
+			if cc := call.Common(); cc.IsInvoke() && an.NamedOf(cc.Value.Type()) == r.IRepo {
+				collectorMethods[cc.Method.Name()] = true
+			}
+		})
+	}
 	for _, s := range fsSinks(c) {
 		if core.FuncPkgPath(s.fn) != r.StorePath {
 			continue
@@ -682,6 +702,9 @@ func runPVPath(c *core.Ctx) {
 			tags := []string{"path"}
 			if usesDigest(p) {
 				tags = append(tags, "digest")
+				if s.fn.Signature.Recv() != nil && collectorMethods[s.fn.Name()] {
+					tags = append(tags, "collector")
+				}
 			}
 			if up := storeConst(c, "uploadDir"); up != "" && (hasPart(p, up) || core.FuncPkgPath(s.fn) == r.StorePath && sinkInUploadCreator(s)) {
 				tags = append(tags, "session")
